@@ -20,6 +20,7 @@ CONSTANTS
   DTs <- DTsSnap
   Jumps <- JumpsCover
   GenVersions = {1}
+  VSet = 0
   MaxHeight = 1
   FocusVals = {1, 2, 3, 4}
 
